@@ -257,7 +257,8 @@ main(void)
 #if PROG == 1
         /* client behaviour while the acquisition is live (CL_MODE, fixed per harness instance):
          *  0 none   1 map, unmap everything   2 map and keep holding across stop/abort
-         *  3 map, consume ONE frame, map again, unmap everything (partial consumption) */
+         *  3 map, consume ONE frame, map again, unmap everything (partial consumption)
+         *  4 map, consume ONE frame of the last region and stop   5 map, hold across stop, never unmap */
 #if CL_MODE == 1
         client_map(rt, 1);
         if (cl_mapped) client_unmap_k(rt, 2 * NMAX);
@@ -268,6 +269,13 @@ main(void)
         if (cl_mapped) client_unmap_k(rt, 1);
         client_map(rt, 1);
         if (cl_mapped) client_unmap_k(rt, 2 * NMAX);
+#elif CL_MODE == 4
+        /* the client's LAST region before stop is consumed only in part (one frame of it) */
+        client_map(rt, 1);
+        if (cl_mapped) client_unmap_k(rt, 1);
+#elif CL_MODE == 5
+        /* the client holds its region across stop/abort and never releases it itself */
+        client_map(rt, 1);
 #endif
         holding_across_stop = cl_mapped;
 #endif
@@ -324,8 +332,14 @@ main(void)
             VASSERT(cl_seen_total == seen0, "C06: frames of a finished acquisition delivered after stop/abort returned");
             if (cl_mapped) { acquire_unmap_read(rt, 0, cl_len); cl_mapped = 0; cl_len = 0; }
         } else {
+#if CL_MODE == 5
+            /* stop/abort has released the region on the client's behalf: the client goes straight on
+             * to the next acquisition, where its map must succeed and show only that acquisition */
+            cl_mapped = 0; cl_len = 0; cl_next = -1;
+#else
             /* the client still holds its region: it releases it now */
             acquire_unmap_read(rt, 0, cl_len); cl_mapped = 0; cl_len = 0;
+#endif
         }
         VASSERT(cl_gap == 0, "C06: client saw a gap, repeat or reordering");
         VASSERT(cl_stale == 0, "C06: client saw a frame of an earlier acquisition");
